@@ -35,6 +35,7 @@ theorem reg_body_exec {r : Rd} (p : String) (hasR hasE : Bool) (rv w wr we wdd v
     simpa [Leaf.buf] using this
   have hrstV : evalAssign r w (FlatM.lit rv) = ⟨w, rv % 2 ^ w, true⟩ := by
     have := inline_const r w rv hrv
+    rw [← lit_eq] at this
     simpa [Leaf.const, Bits.put_ofNat] using this
   have bE : (ve != 0) = !(ve == 0) := by cases h : ve == 0 <;> simp_all
   cases hasR <;> cases hasE <;>
